@@ -149,6 +149,13 @@ def check_case(ctx, ch, events):
         if re.search(r'spin: .*(Error|error)', out) or 'syntax error' in out:
             err = [l for l in out.splitlines() if 'rror' in l][:3]
             if any('stmnt in d_step' in l for l in err) and 'Taking a step' in out:
+                # the emitted channels are bounded (chan ROOT_iQ = [n], ROOT_eQ = [m]): a chart that legitimately holds more
+                # events than that at some point is outside what the emitted model can represent
+                caps = {m.group(1): int(m.group(2)) for m in re.finditer(r'^chan ROOT_(iQ|eQ)\s*=\s*\[(\d+)\]', text, re.M)}
+                if getattr(mdl, 'max_iq', 0) >= caps.get('iQ', 1 << 30) or getattr(mdl, 'max_eq', 0) >= caps.get('eQ', 1 << 30):
+                    ctx.notes['skipped_queue_bound_exceeded'] += 1
+                    ctx.evaluations += 1
+                    return
                 # a run-time block inside d_step = a bounded event queue overflowed. If the transpilers' conflict relation
                 # (known finding) turns this chart into a never-stabilising one, that is the explanation.
                 qm, qexp = run_model(ch, [], quirks=['fast-select'])
